@@ -55,6 +55,8 @@ func (c C) coverage(key string, fn *ssa.Function, st *types.Struct, root string,
 // C08 signatures bind every transaction field.
 func C08(p *ir.Program, r *report.R) {
 	c := C{p, r}
+	// the signature pre-check trusts the mempool cache only for transactions that passed their basic check
+	c05Cache(c)
 	r.Floor = 60
 	r.Explain = "Decided: sign-field coverage per transaction kind, with the field list taken from the struct type (txdata, tokenData, ContractUpgradeMainInfo, MultiSignMainInfo, UTXOTransaction) so that a new field that is not signed is reported; the chain parameter is appended by both the signing and the verifying hash and the protected path of STDEIP155Signer.Sender is dominated by sign-param equality; recoverPlain reaches Ecrecover only after the V range and ValidateSignatureValues checks, with homestead rules from every reachable caller; the transaction hash (cache key, mempool identity) covers the signature for every kind and the cached sender is used only for an equal signer; the confidential spend authorisation message is the prefix hash that covers inputs, outputs, token, keys, fee, extra and the account signature, and the ring signatures are checked against the expanded signature built from it. ADDED after seeded-change testing: ValidateSignatureValues is interpreted exhaustively over the orderings of r and s against 1, N/2 and N, the homestead flag and v (1458 rows) against the specification, and secp256k1halfN is N/2; UTXOTransaction.CheckBasic returns nil only after checkTxInputKeys (ring signatures) whenever the transaction has a confidential input. every re-signing site that copies a payload resets the copy's sender cache; in verifyTxsOnProcess the error of every From/CheckTx call is assigned to the variable reported through the goroutine's result slot. NOT decided: soundness of secp256k1/ed25519/RingCT (cgo), one-time address ownership (cryptographic, no structural clause)."
 	r.Trusted = []string{"crypto.Ecrecover / ValidateSignatureValues (secp256k1)", "xcrypto RingCT (cgo)", "rlpHash = Keccak(ser encoding) (C11)"}
@@ -375,6 +377,25 @@ func C08(p *ir.Program, r *report.R) {
 			}
 		})
 		r.Check("K4", "types.(*UTXOTransaction).expandTransactionRctSig/message", p.Pos(ex.Pos()), okM, "the ring-signature message is set from PrefixHash()")
+		// ... from the CURRENT content, every time: the message is not on the wire, an object that was
+		// checked once and then modified must not be checked against the hash of its old content
+		ir.Instrs(ex, func(in ssa.Instruction) {
+			if st, ok := in.(*ssa.Store); ok && strings.Contains(ir.Render(st.Addr), "Message") && strings.Contains(ir.Render(st.Val), "types.UTXOTransaction.PrefixHash(") {
+				memo := false
+				for _, f := range ir.FactsAt(in) {
+					if strings.Contains(f.Atom, "RCTSig.Message") || strings.Contains(f.Atom, ".Message,") {
+						memo = true
+					}
+				}
+				r.Check("K4", "types.(*UTXOTransaction).expandTransactionRctSig/message-not-memoised", p.InstrPos(in), !memo, "the assignment does not depend on the message's previous value")
+				// and it is on every path that goes on to fill the ring
+				found, _, tr := ir.FindPath(ir.PathQuery{From: ir.Entry(ex), Target: func(x ssa.Instruction) bool {
+					s2, ok := x.(*ssa.Store)
+					return ok && strings.Contains(ir.Render(s2.Addr), "MixRing")
+				}, Avoid: func(x ssa.Instruction) bool { return x == in }})
+				r.Check("K2", "types.(*UTXOTransaction).expandTransactionRctSig/message-before-ring", p.InstrPos(in), !found, fmt.Sprintf("no path fills the ring without setting the message first; path %v", tr))
+			}
+		})
 		ck := p.Func("types", "UTXOTransaction.checkTxInputKeys")
 		e1, e2 := firstCall(ck, "types.UTXOTransaction.expandTransactionRctSig"), firstCall(ck, "types.UTXOTransaction.checkRingctSignatures")
 		r.Check("K2", "types.(*UTXOTransaction).checkTxInputKeys/expand ≺ verify", p.Pos(ck.Pos()), e1 != nil && e2 != nil && ir.Precedes(e1, e2), "the signature is expanded (message set) before the ring signatures are verified")
@@ -392,7 +413,11 @@ func C08(p *ir.Program, r *report.R) {
 		// input is not a confidential one. (A missing signature that is skipped lets the input through.)
 		cr := p.Func("types", "UTXOTransaction.checkRingctSignatures")
 		nW := 0
-		for _, w := range cr.AnonFuncs {
+		var workers []*ssa.Function
+		for _, part := range ir.WithHelpers(cr) {
+			workers = append(workers, part.AnonFuncs...)
+		}
+		for _, w := range workers {
 			if len(ir.Calls(w, "xcrypto.CheckRingSignature")) == 0 {
 				continue
 			}
@@ -429,11 +454,13 @@ func C08(p *ir.Program, r *report.R) {
 			r.Check("K2", "types.(*UTXOTransaction).checkRingctSignatures/short-ring/all-verdicts-read", p.InstrPos(rt.Instr), ir.HasFact(fs, "le(len(errs),*)"), "success only after the loop over all verdict slots finished")
 		}
 		okSlots := false
-		ir.Instrs(cr, func(in ssa.Instruction) {
-			if ms, ok := in.(*ssa.MakeSlice); ok && strings.Contains(ms.Type().String(), "error") {
-				okSlots = ir.Render(ms.Len) == "len(tx.Inputs)"
-			}
-		})
+		for _, part := range ir.WithHelpers(cr) {
+			ir.Instrs(part, func(in ssa.Instruction) {
+				if ms, ok := in.(*ssa.MakeSlice); ok && strings.Contains(ms.Type().String(), "error") {
+					okSlots = ir.Render(ms.Len) == "len(tx.Inputs)"
+				}
+			})
+		}
 		r.Check("K2", "types.(*UTXOTransaction).checkRingctSignatures/short-ring/one-slot-per-input", p.Pos(cr.Pos()), okSlots, "errs has len(tx.Inputs) slots")
 	}
 	_ = sort.Strings
